@@ -264,54 +264,86 @@ def rebuild_and_compare(ip, c, tag, model, rebuilt, g):
     c.oblige(f"{tag}.same_state", observe(ip, rebuilt) == observe(ip, model) if model is not None else True)
 
 
-@unit("C15.roundtrip", "C15", [f"{M}::Model.pop_nodes_and_vars", f"{M}::Model.copy_nodes_and_vars", f"{M}::Model.__init__", f"{N}::Node._unset_model", f"{N}::Node.__getstate__"],
-      assumptions=["A-PY deepcopy; graph shape 'diamond' (shared input, transient node, leaf)"])
-def u_roundtrip(ip):
-    """pop + rebuild, copy_nodes_and_vars + rebuild, deep copy and copy=True each give a model with identical observable state and
-    identical behaviour under assignment, independent of the original (assigning in one does not change the other)."""
-    c = ip.ctx
-    install_graph_models(ip)
-    g = G(ip)
-    Model = ip.repo(f"{M}::Model")
+def shape_auto_transformed(g):
+    """x ~ D(rate=p) is a parameter with auto_transform=True (re-parameterised by build_model with the distribution's default bijector), y ~ Lik(x)"""
+    from contracts.graph import dist_fn_tfp
+    p = g.var("p")
+    x = g.var("x", dist=g.ip.call(g.Dist, [dist_fn_tfp("D")], {"rate": p}), parameter=True)
+    g.ip.setattr(x, "auto_transform", True)
+    return [g.var("y", dist=g.dist("Lik", x), observed=True)]
 
-    def fresh():
-        gg = G(ip)
-        return gg, gg.build(*SHAPES["diamond"](gg))
 
-    newv = z3.Const("assigned_a", U)
+def roundtrip_unit(uid, shape_fn, assign_name, descr):
+    @unit(uid, "C15", [f"{M}::Model.pop_nodes_and_vars", f"{M}::Model.copy_nodes_and_vars", f"{M}::Model.__init__", f"{M}::GraphBuilder.build_model", f"{N}::Node._unset_model", f"{N}::Node.__getstate__"],
+          assumptions=[f"A-PY deepcopy; graph {descr}"])
+    def u_roundtrip(ip):
+        """pop + rebuild, copy_nodes_and_vars + rebuild (through the Model constructor and through a GraphBuilder), deep copy and copy=True each give a
+        model with identical observable state and identical behaviour under assignment, independent of the original (assigning in one does not change the other)."""
+        c = ip.ctx
+        install_graph_models(ip)
+        from contracts.graph import install_tfp_models
+        install_tfp_models(ip)
+        g = G(ip)
+        Model = ip.repo(f"{M}::Model")
 
-    def after_assign(m):
-        ip.setattr(m.f["_vars"]["a"], "value", newv)
-        return observe(ip, m)
+        def fresh():
+            gg = G(ip)
+            return gg, gg.build(*shape_fn(gg))
 
-    _, ref = fresh()
-    ref_state = observe(ip, ref)
-    _, ref2 = fresh()
-    ref_assigned = after_assign(ref2)
-    # copy_nodes_and_vars + rebuild
-    _, m1 = fresh()
-    nodes, vars_ = ip.call(method(ip, m1, "copy_nodes_and_vars"), [], {})
-    cp = ip.call(Model, [list(nodes.values()) + list(vars_.values())], {})
-    c.oblige("copy_rebuild.same_state", observe(ip, cp) == ref_state)
-    c.oblige("copy_rebuild.same_behaviour", after_assign(cp) == ref_assigned)
-    c.oblige("copy_rebuild.original_independent", observe(ip, m1) == ref_state)
-    # deepcopy via copy=True
-    gg, _m = fresh()
-    gb = ip.call(gg.GB, [], {})
-    roots = SHAPES["diamond"](gg)
-    ip.call(method(ip, gb, "add"), roots, {})
-    m2 = ip.call(method(ip, gb, "build_model"), [], {"copy": True})
-    c.oblige("copy_true.same_state", observe(ip, m2) == ref_state)
-    c.oblige("copy_true.independent_of_builder_nodes", all(m2.f["_vars"]["a"] is not r for r in roots) and after_assign(m2) == ref_assigned and ip.getattr(roots[0], "model") is None)
-    # pop + rebuild
-    _, m3 = fresh()
-    nodes, vars_ = ip.call(method(ip, m3, "pop_nodes_and_vars"), [], {})
-    c.oblige("pop.model_emptied", len(m3.f["_nodes"]) == 0 and len(m3.f["_vars"]) == 0)
-    c.oblige("pop.nodes_unfrozen", all(ip.getattr(nd, "model") is None for nd in nodes.values()))
-    c.oblige("pop.no_model_nodes_returned", not any(k.startswith("_model") for k in nodes))
-    rebuilt = ip.call(Model, [list(nodes.values()) + list(vars_.values())], {})
-    c.oblige("pop_rebuild.same_state", observe(ip, rebuilt) == ref_state)
-    c.oblige("pop_rebuild.same_behaviour", after_assign(rebuilt) == ref_assigned)
+        newv = z3.Const("assigned_a", U)
+
+        def after_assign(m):
+            ip.setattr(m.f["_vars"][assign_name], "value", newv)
+            return observe(ip, m)
+
+        def rebuild(how, nodes, vars_):
+            if how == "model":
+                return try_call(ip, Model, [list(nodes.values()) + list(vars_.values())], {})
+            gb = ip.call(g.GB, [], {})
+            ip.call(method(ip, gb, "add"), list(nodes.values()) + list(vars_.values()), {})
+            return try_call(ip, method(ip, gb, "build_model"), [], {})
+
+        _, ref = fresh()
+        ref_state = observe(ip, ref)
+        _, ref2 = fresh()
+        ref_assigned = after_assign(ref2)
+        # copy_nodes_and_vars + rebuild
+        for how in ("model", "builder"):
+            sfx = "" if how == "model" else ".through_a_builder"
+            _, m1 = fresh()
+            nodes, vars_ = ip.call(method(ip, m1, "copy_nodes_and_vars"), [], {})
+            kind, cp = rebuild(how, nodes, vars_)
+            c.oblige(f"copy_rebuild{sfx}.same_state", kind == "ok" and observe(ip, cp) == ref_state, raised=str(getattr(cp, "args", "")))
+            c.oblige(f"copy_rebuild{sfx}.same_behaviour", kind == "ok" and after_assign(cp) == ref_assigned)
+            c.oblige(f"copy_rebuild{sfx}.original_independent", observe(ip, m1) == ref_state)
+        # deepcopy via copy=True
+        gg, _m = fresh()
+        gb = ip.call(gg.GB, [], {})
+        roots = shape_fn(gg)
+        ip.call(method(ip, gb, "add"), roots, {})
+        m2 = ip.call(method(ip, gb, "build_model"), [], {"copy": True})
+        c.oblige("copy_true.same_state", observe(ip, m2) == ref_state)
+        c.oblige("copy_true.independent_of_builder_nodes", all(m2.f["_vars"][assign_name] is not r for r in roots) and after_assign(m2) == ref_assigned and ip.getattr(roots[0], "model") is None)
+        # ... and the builder can build again (copy=True leaves its own variables untouched)
+        kind, m2b = try_call(ip, method(ip, gb, "build_model"), [], {"copy": True})
+        c.oblige("copy_true.second_build_same_state", kind == "ok" and observe(ip, m2b) == ref_state, raised=str(getattr(m2b, "args", "")))
+        # pop + rebuild
+        for how in ("model", "builder"):
+            sfx = "" if how == "model" else ".through_a_builder"
+            _, m3 = fresh()
+            nodes, vars_ = ip.call(method(ip, m3, "pop_nodes_and_vars"), [], {})
+            if how == "model":
+                c.oblige("pop.model_emptied", len(m3.f["_nodes"]) == 0 and len(m3.f["_vars"]) == 0)
+                c.oblige("pop.nodes_unfrozen", all(ip.getattr(nd, "model") is None for nd in nodes.values()))
+                c.oblige("pop.no_model_nodes_returned", not any(k.startswith("_model") for k in nodes))
+            kind, rebuilt = rebuild(how, nodes, vars_)
+            c.oblige(f"pop_rebuild{sfx}.same_state", kind == "ok" and observe(ip, rebuilt) == ref_state, raised=str(getattr(rebuilt, "args", "")))
+            c.oblige(f"pop_rebuild{sfx}.same_behaviour", kind == "ok" and after_assign(rebuilt) == ref_assigned)
+    return u_roundtrip
+
+
+roundtrip_unit("C15.roundtrip", SHAPES["diamond"], "a", "shape 'diamond' (shared input, transient node, leaf)")
+roundtrip_unit("C15.roundtrip.auto_transformed", shape_auto_transformed, "p", "x ~ D(rate=p) with auto_transform=True, y ~ Lik(x)")
 
 
 @unit("C15.reuse_after_dropped_model", "C15", [f"{M}::Model.__init__", f"{N}::Node._clear_outputs", f"{N}::Node._add_output"],
